@@ -1,6 +1,6 @@
 CONSTANTS
   PMAX = 255
 SPECIFICATION Spec
-INVARIANT CapOK
+INVARIANTS CapOK NotDone
 POSTCONDITION TraceAccepted
 CHECK_DEADLOCK FALSE
